@@ -91,6 +91,10 @@ func (ioc *IO) Register(slot *internal.Slot) {
 }
 
 func (ioc *IO) Deregister(slot *internal.Slot) {
+	if slot.Events != 0 {
+		// An operation in the other direction is still in flight: the slot, hence its owner, must stay reachable.
+		return
+	}
 	if slot.Fd >= len(ioc.pending.static) {
 		delete(ioc.pending.dynamic, slot.Fd)
 	} else {
